@@ -6,6 +6,7 @@ export GOFLAGS=-mod=mod GOPROXY=off GOSUMDB=off GOTOOLCHAIN=local
 SCR=$(mktemp -d "${TMPDIR:-/tmp}/verif-setup.XXXXXX") || exit 2
 trap 'rm -rf "$SCR"' EXIT
 go build -o "$SCR/verif" ./cmd/verif || exit 2
+go build -o "$SCR/genapi" ./cmd/genapi || exit 2
 if [ -d cmd/instr ]; then
   go run ./cmd/instr /repo/jen "$SCR/instr" >/dev/null || exit 2
   go build -tags verif -overlay "$SCR/instr/overlay.json" -o "$SCR/verif-instr" ./cmd/verif || exit 2
